@@ -90,6 +90,13 @@ CLAIMED = {
         "every formal is associated exactly once (checked by the fail-closed elaborator), and a kernel-checked theorem that the elaborated hierarchical design and the REAL compilation of the same logic placed inline have equal traces for ALL input sequences.",
    technique="Rocq proof: verified product-reachability checker, design against design, per generated tree",
    design_ref="DESIGN.md §6 C12"),
+ "C11": dict(
+   text="Proof. Unbounded theorems over ALL histories of compilations on a Gallina model of the compiler's module/class-level scratch state (16 fields, each stage performing exactly the set/restore operations of the current tree on normal and exceptional exit): "
+        "C11_history_independent (the outcome of compiling a design after any history equals its outcome in a fresh interpreter), C11_relevant_clean_invariant, C11_scratch_transparent / C11_caches_transparent (the fields that do leak are never read). "
+        "Tie per run: seeded histories over a 49-design pool executed in ONE interpreter each, real globals + output hash snapshotted after every compilation and compared with the model inside Coq; every accepted output is also compared byte-for-byte with a fresh interpreter. "
+        "PYTHONHASHSEED independence is differential testing over three seeds (runtime behaviour, not modelled).",
+   technique="Rocq proof by induction over histories on a Gallina state model; correspondence by vm_compute on in-process histories; differential test for hash seeds",
+   design_ref="DESIGN.md §6 C11, §8"),
 }
 ALL = ["C%02d" % i for i in range(1, 21)]
 
